@@ -46,9 +46,17 @@ Entries == {"Endorsement", "EndorsementProto", "SNPFunc_blob", "SNPFunc_opts", "
             \* the bucket serves the row's endorsement to the first request and a genuine one to any later
             \* request: what was downloaded first is what policy AND verdict are derived from
             "SevValidate_getter_then_genuine",
-            "cli_verify", "cli_sev_validate", "cli_tdx_validate"}
+            "cli_verify", "cli_sev_validate", "cli_tdx_validate",
+            \* the signer-side library sign/ops/verify.go: VerifySignatureFromCA(ca, key version, now, message,
+            \* signature) -- the certificate is the one the authority holds for the key version, the caller's
+            \* roots are the authority's bundle for it, the message is the payload bytes as they are
+            "SopsVerifySignatureFromCA"}
+\* entry points that take the payload as opaque bytes (no parsing, no provenance rule): one payload /
+\* provenance class is enough for them
+OpaqueEntries == {"SopsVerifySignatureFromCA"}
 
-Rows == [payload : Payloads, sig : Sigs, cert : Certs, roots : Roots, time : Times, prov : Provs, entry : Entries]
+Rows == {r \in [payload : Payloads, sig : Sigs, cert : Certs, roots : Roots, time : Times, prov : Provs, entry : Entries] :
+           r.entry \in OpaqueEntries => r.payload = "canonical" /\ r.prov = "new_clspec"}
 
 \* the declarative property
 SigOK(r) == r.sig = "valid" /\ r.payload # "unparseable"
@@ -71,7 +79,9 @@ Enter ==
                               "SevValidate_opts_plus_genuine_extra", "cli_sev_plus_genuine_extra",
                               "TdxValidate_opts", "cli_tdx_validate"} /\ row.payload = "unparseable"
               THEN Reject("reject:policy")
-              ELSE stage' = "unmarshal" /\ UNCHANGED <<row, result>>
+              ELSE IF row.entry \in OpaqueEntries
+                THEN stage' = "cert" /\ UNCHANGED <<row, result>>
+                ELSE stage' = "unmarshal" /\ UNCHANGED <<row, result>>
 
 Unmarshal ==
   /\ stage = "unmarshal"
@@ -89,6 +99,8 @@ CheckCert ==
      ELSE IF row.roots = "nil" THEN Reject("reject:noroots")
      ELSE IF row.cert = "garbage" THEN Reject("reject:certparse")
      ELSE IF ~Chains(row) THEN Reject("reject:chain")
+     \* sign/ops also demands RSA-PSS/SHA-256 of the certificate's own (issuer) signature
+     ELSE IF row.entry \in OpaqueEntries /\ row.cert # "genuine" THEN Reject("reject:certscheme")
      ELSE stage' = "sig" /\ UNCHANGED <<row, result>>
 
 CheckSig ==
@@ -106,7 +118,8 @@ C01_Authentic == result = "accept" => Authentic(row)
 \* nothing of the payload other than timestamp / provenance is trusted before the signature check
 C01_SigBeforeContent == stage = "rest" => Authentic(row)
 \* completeness on these rows (drift oracle): authentic rows with provenance are accepted
-C01_Complete == stage = "done" /\ Authentic(row) /\ row.cert \in GenuineCerts /\ row.prov # "new_none" => result = "accept"
+C01_Complete == stage = "done" /\ Authentic(row) /\ row.cert \in GenuineCerts /\ row.prov # "new_none"
+                  /\ (row.entry \in OpaqueEntries => row.cert = "genuine") => result = "accept"
 
 Emit == stage = "done" => PrintT(<<"VCASE", ToJson([row |-> row, result |-> result])>>)
 =============================================================================
